@@ -70,6 +70,7 @@ func (m *module) wait(waiter *module) (starlark.StringDict, error) {
 			if loading == waiter {
 				return nil, fmt.Errorf("cyclic dependency on %v", m.label)
 			}
+			verifYield("mod.walk", loading.label.String())
 		}
 	}
 
